@@ -123,6 +123,13 @@ KERNELS = [
          ext={"np.unique": ("classes", "Arr")}, until="for i in range(n_classes)", returns=["true_positives", "false_negatives"], skip_float_zeros=True),
     dict(name="f1_counts", file="utils/_metrics.py", func="f1_score", params=[("y_true", "Arr"), ("y_predict", "Arr")], ret="Mat",
          ext={"np.unique": ("classes", "Arr")}, until="for i in range(n_classes)", returns=["true_positives", "false_negatives", "down_precision"], skip_float_zeros=True),
+    # ---- the skeleton of a run: the method calls of fit() become a log of action codes; the results of
+    #      _termitation_check() are a stream parameter (1 = stop), `self._on_generation is not None` a Bool parameter
+    dict(name="EA_fit", file="base/_ea.py", cls="EvolutionaryAlgorithm", func="fit", params=[], ret="Arr",
+         self_attrs={"_iters": ("iters", "Int"), "_random_state": ("random_state", "Int")},
+         actions={"check_random_state": 1, "self._get_init_population": 2, "self._from_population_g_to_fitness": 3, "self._show_progress": 4,
+                  "self._get_new_population": 6, "self._on_generation": 7},
+         bool_stream={"self._termitation_check": ("stops", 5)}, not_none={"_on_generation": "has_callback"}, returns_log=True),
     dict(name="tournament_selection", file="utils/selections.py", func="tournament_selection",
          params=[("fitness", "Arr"), ("rank", "Arr"), ("tour_size", "Int"), ("quantity", "Int")], ret="Arr",
          ext_stream={"random_sample": "samples"}),
@@ -131,7 +138,7 @@ KERNELS = [
 LTY = {"Int": "Int", "Arr": "List Int", "Bool": "Bool", "Mat": "List (List Int)", "Self": "List Int", "Tree": "List (List Int)"}
 TREE_ATTR = {"_nodes": "nodes", "_n_args": "nargs"}
 DEFAULT = {"Int": "0", "Arr": "[]", "Bool": "false", "Mat": "[]"}
-RESERVED = ("end", "at", "from", "to", "in", "do", "then", "fun", "match", "with", "open", "by", "s", "us", "ns", "fuel", "rolls", "max", "min", "hi0", "samples", "self", "self_nodes", "self_nargs")
+RESERVED = ("end", "at", "from", "to", "in", "do", "then", "fun", "match", "with", "open", "by", "s", "us", "ns", "fuel", "rolls", "max", "min", "hi0", "samples", "self", "self_nodes", "self_nargs", "log", "stops", "kb")
 
 
 class NotRecognised(Exception):
@@ -179,6 +186,9 @@ class Tr:
         self.ext_stream = cfg.get("ext_stream", {})
         self.self_state = cfg.get("self_state", [])
         self.method_uses = cfg.get("method_uses", {})
+        self.actions = cfg.get("actions", {})
+        self.bool_stream = cfg.get("bool_stream", {})
+        self.not_none = cfg.get("not_none", {})
         self.self_tree = bool(cfg.get("self_tree"))
         self.tree_methods = cfg.get("tree_methods", {})
         self.uses = cfg.get("uses", [])
@@ -241,7 +251,7 @@ class Tr:
                 return "Arr"
             if nm in self.ext_stream:
                 return "Arr"
-            if nm in ("flip_coin", "bool"):
+            if nm in ("flip_coin", "bool") or self.self_call_name(e) in self.bool_stream:
                 return "Bool"
             if nm in self.ext:
                 return self.ext[nm][1]
@@ -317,7 +327,8 @@ class Tr:
                 inner = e.args[0].args[0]
                 other = inner.right if self.is_rr(inner.left) else inner.left
                 self.hoist(other, lines, env, guarded)
-            elif isinstance(e.func, ast.Attribute) and not is_np(e.func, *NP_FUNCS) and nm not in ("random.random", "np.random.randint"):
+            elif isinstance(e.func, ast.Attribute) and not is_np(e.func, *NP_FUNCS) and nm not in ("random.random", "np.random.randint") \
+                    and not (isinstance(e.func.value, ast.Name) and e.func.value.id == "self"):
                 self.hoist(e.func.value, lines, env, guarded)
                 for a in e.args:
                     self.hoist(a, lines, env, guarded)
@@ -351,6 +362,11 @@ class Tr:
                 t = self.tmp("Int")
                 lines.append(f"{{ s with {t} := Imp.geti rolls s.kr, dry := s.dry || decide (rolls.length ≤ s.kr), kr := s.kr + 1 }}")
                 env[id(e)] = f"s.{t}"
+            elif kind == "bstream":
+                par, code = self.bool_stream[self.self_call_name(e)]
+                t = self.tmp("Int")
+                lines.append(f"{{ s with {t} := Imp.geti {par} (s.kb : Int), dry := s.dry || decide ({par}.length ≤ s.kb), kb := s.kb + 1, log := s.log ++ [({code} : Int)] }}")
+                env[id(e)] = f"(Imp.truthy s.{t})"
             elif kind == "xstream":
                 t = self.tmp("Arr")
                 xs = self.ext_stream[nm]
@@ -371,6 +387,17 @@ class Tr:
         for c in ast.iter_child_nodes(e):
             if isinstance(c, ast.expr):
                 self.hoist(c, lines, env, guarded)
+
+    @staticmethod
+    def self_call_name(e):
+        """`self.m(...)` -> 'self.m'; `f(...)` -> 'f'"""
+        if isinstance(e, ast.Call):
+            f = e.func
+            if isinstance(f, ast.Name):
+                return f.id
+            if isinstance(f, ast.Attribute) and isinstance(f.value, ast.Name) and f.value.id == "self":
+                return "self." + f.attr
+        return None
 
     def tree_attr(self, e):
         """`X._nodes` / `X._n_args` of a Tree value X (self, a parameter or a local) -> Lean expression, else None"""
@@ -441,6 +468,8 @@ class Tr:
             return "kernel"
         if nm in self.ext_stream:
             return "xstream"
+        if self.self_call_name(e) in self.bool_stream:
+            return "bstream"
         return None
 
     # ---- expressions (pure, after hoisting)
@@ -501,6 +530,10 @@ class Tr:
             if isinstance(e.op, ast.Not):
                 return f"(! {self.B(e.operand, env)})"
             raise NotRecognised("unary operator")
+        if isinstance(e, ast.Compare) and len(e.ops) == 1 and isinstance(e.ops[0], (ast.IsNot, ast.Is)) and isinstance(e.comparators[0], ast.Constant) \
+                and e.comparators[0].value is None and self.self_path(e.left) in self.not_none:
+            v = self.not_none[self.self_path(e.left)]
+            return v if isinstance(e.ops[0], ast.IsNot) else f"(! {v})"
         if isinstance(e, ast.Compare):
             parts, left = [], e.left
             for op, right in zip(e.ops, e.comparators):
@@ -689,6 +722,11 @@ class Tr:
             selfl = "[" + ", ".join(f"s.self{a}" for a in self.self_state) + "]"
             upd = ", ".join(f"self{a} := Imp.geti v ({k} : Int)" for k, a in enumerate(self.self_state))
             L.append(f"(match {callee} {selfl} {args} with | some v => {{ s with {upd} }} | none => {{ s with err := true }})")
+            return L
+        if isinstance(st, ast.Expr) and isinstance(st.value, ast.Call) and self.self_call_name(st.value) in self.actions:
+            # an action of the run skeleton: its arguments are evaluated (range checks), its effect is the log entry
+            env = self.pre([a for a in st.value.args if not (isinstance(a, ast.Name) and a.id == "self")], L)
+            L.append(f"{{ s with log := s.log ++ [({self.actions[self.self_call_name(st.value)]} : Int)] }}")
             return L
         if isinstance(st, ast.Expr) and isinstance(st.value, ast.Call):
             c = st.value
@@ -910,6 +948,8 @@ class Tr:
                     raise NotRecognised("returned structure")
             walk(last.value)
             lines.append(f"{pad}if s.err || s.dry then none else some ([" + ", ".join(flatn) + "])")
+        elif isinstance(last, ast.Return) and self.cfg.get("returns_log"):
+            lines.append(f"{pad}if s.err || s.dry then none else some (s.log)")
         elif isinstance(last, ast.Return) and self.cfg["ret"] == "Tree":
             a, b = self.tree_pair(last.value, {})
             lines.append(f"{pad}if s.err || s.dry then none else some ([{a}, {b}])")
@@ -965,13 +1005,15 @@ class Tr:
         if self.roll_stream:
             extra += " (rolls : List Int)"
         extra += "".join(f" ({v} : List (List Int))" for v in self.ext_stream.values())
+        extra += "".join(f" ({v} : Bool)" for v in self.not_none.values())
+        extra += "".join(f" ({par} : List Int)" for par, _ in self.bool_stream.values())
         imports = "".join(f"import TFV.Generated.Src.{u}\n" for u in list(self.uses) + list(self.method_uses.values()) + list(self.tree_methods.values()))
         fuel = f"  let fuel : Nat := {cfg['fuel']}\n" if cfg.get("fuel") else ""
         return (f"/- GENERATED by harness/extract/py2lean.py from /repo/src/thefittest/{cfg['file']} ({(cfg.get('cls') + '.') if cfg.get('cls') else ''}{cfg['func']})\n"
                 f"   on every run of the checks that depend on it. Do not edit. -/\n"
                 f"import TFV.Model.Imp\n{imports}\nset_option linter.unusedVariables false\n\nnamespace TFV.Generated.Src\nopen TFV\n\n"
                 f"structure {name}.S where\n{fields}  brk : Bool := false\n  cnt : Bool := false\n  err : Bool := false\n  dry : Bool := false\n"
-                f"  ku : Nat := 0\n  kn : Nat := 0\n  kr : Nat := 0\n" + ("  kx : Nat := 0\n" if self.ext_stream else "") + "\n"
+                f"  ku : Nat := 0\n  kn : Nat := 0\n  kr : Nat := 0\n" + ("  kx : Nat := 0\n" if self.ext_stream else "") + ("  kb : Nat := 0\n  log : List Int := []\n" if (self.bool_stream or self.actions) else "") + "\n"
                 f"def {name} {params} {extra} : Option ({LTY[cfg['ret']]}) :=\n"
                 f"  let s : {name}.S := {{" + ", ".join(f"self{a} := Imp.geti self ({k} : Int)" for k, a in enumerate(self.self_state)) + f"}}\n{fuel}{body}\n\nend TFV.Generated.Src\n")
 
